@@ -511,6 +511,70 @@ fn run_regressions(ctx: &mut Ctx, scratch: &Scratch) {
     }
 }
 
+/// the seed corpus of the fuzz targets (strings and files of the repository's own locale files) and
+/// any saved crash inputs under /verif/regress/C09, run through the same in-process oracle
+fn run_corpus(ctx: &mut Ctx, scratch: &Scratch) {
+    const HELPERS: &str = r#""t": "T {{ x }} <b>{{ y }}</b>", "n": 5, "r": [["zero", 0], ["{{ count }} some", "1..5", 7], ["many {{ count }}"]], "f": ["f32", ["low", "..1.5"], ["rest"]], "p_one": "one {{ count }}", "p_other": "{{ count }} others", "o_ordinal_one": "{{ count }}st", "o_ordinal_other": "{{ count }}th", "s": {"a": "A", "b": {"c": "C {{ z }}"}}"#;
+    let mut inputs: Vec<(String, String, String)> = vec![]; // (name, en.json, fr.json)
+    for (dir, kind) in [("/verif/engine/fuzz/seeds/fuzz_value", "value"), ("/verif/engine/fuzz/seeds/fuzz_file", "file"), ("/verif/regress/C09", "regress")] {
+        let Ok(rd) = std::fs::read_dir(dir) else { continue };
+        let mut names: Vec<_> = rd.flatten().map(|e| e.path()).collect();
+        names.sort();
+        for path in names {
+            let Ok(bytes) = std::fs::read(&path) else { continue };
+            let name = path.file_name().map(|n| n.to_string_lossy().to_string()).unwrap_or_default();
+            let as_value = kind == "value" || name.starts_with("fuzz_value-");
+            if as_value {
+                let s = String::from_utf8_lossy(&bytes);
+                let (a, b) = match s.split_once('\0') {
+                    Some((a, b)) => (a.to_string(), Some(b.to_string())),
+                    None => (s.to_string(), None),
+                };
+                let mut ja = String::new();
+                ser::json_string_plain(&a, &mut ja);
+                let en = format!("{{{HELPERS}, \"k\": {ja}}}");
+                let fr = match b {
+                    Some(b) => {
+                        let mut jb = String::new();
+                        ser::json_string_plain(&b, &mut jb);
+                        format!("{{{HELPERS}, \"k\": {jb}}}")
+                    }
+                    None => format!("{{{HELPERS}}}"),
+                };
+                inputs.push((name, en, fr));
+            } else {
+                let (a, b) = match bytes.iter().position(|b| *b == 0xFF) {
+                    Some(i) => (&bytes[..i], &bytes[i + 1..]),
+                    None => (&bytes[..], &b"{}"[..]),
+                };
+                inputs.push((name, String::from_utf8_lossy(a).to_string(), String::from_utf8_lossy(b).to_string()));
+            }
+        }
+    }
+    for (name, en, fr) in inputs {
+        let dir = scratch.0.join("corpus");
+        let _ = std::fs::remove_dir_all(&dir);
+        let _ = std::fs::create_dir_all(dir.join("locales"));
+        let _ = std::fs::write(dir.join("Cargo.toml"), "[package]\nname = \"x\"\n[package.metadata.leptos-i18n]\ndefault = \"en\"\nlocales = [\"en\", \"fr\"]\ninherits = { fr = \"en\" }\n");
+        let _ = std::fs::write(dir.join("locales/en.json"), &en);
+        let _ = std::fs::write(dir.join("locales/fr.json"), &fr);
+        match exercise(&dir, &scratch.0.join("out")) {
+            Ok(o) => ctx.record(CaseInfo {
+                hash: hash_str(&format!("{en}{fr}")),
+                nontrivial: o.parse_ok,
+                classes: vec!["corpus-input".into()],
+                sample: None,
+                observations: 3,
+            }),
+            Err((sig, mut d)) => {
+                d["corpus_input"] = json!(name);
+                d["en"] = json!(en);
+                ctx.fail("corpus", None, &fail(&sig, d));
+            }
+        }
+    }
+}
+
 // ------------------------------------------------------------------------------------------
 // deep / long inputs in child processes (a stack overflow kills the process)
 
@@ -644,6 +708,7 @@ pub fn run(mut ctx: Ctx) -> ! {
         ctx.replay_tape("mutate", &path, |t| case(t, &scratch, 2000, &slow));
     } else {
         run_regressions(&mut ctx, &scratch);
+        run_corpus(&mut ctx, &scratch);
         let cases = ctx.tier.scale(6000, 200000);
         ctx.run_tapes("mutate", cases, 1500, |t| case(t, &scratch, 2000, &slow));
         let sizes: &[usize] = match ctx.tier {
